@@ -145,6 +145,15 @@ def run_check(spec, tier, seed, replay=None):
     rep.cov["discharged"] = len(discharged)
     rep.cov["theorems"] = discharged
     rep.cov["axioms_used"] = sorted(set(a for v in axioms.values() for a in v))
+    if tier == "thorough" and not any(k == "obligation" for k, _, _ in broken):
+        # independent re-check of the compiled .olean files of every property module by leanchecker (one module per call)
+        lc = {}
+        for pm in spec.props_modules:
+            ok, out = core.leanchecker(pm)
+            lc[pm] = "ok" if ok else "FAILED"
+            if not ok:
+                broken.append(("obligation", pm, "leanchecker rejects the compiled module\n" + out[-2500:]))
+        rep.cov["leanchecker"] = lc
 
     # ---- stage 0b: harnesses
     hexe = {}
@@ -264,7 +273,7 @@ def run_check(spec, tier, seed, replay=None):
             if key.startswith("safety:"):
                 return ioc == key.split(":")[1]
             return ioc == "ok" and any(k == key for k, _, _ in safe_oracle(part, c, io))
-        return core.ddmin(h, fails, budget=100 if tier == "quick" else 400, shrink_line=part.shrink_line)
+        return core.ddmin(h, fails, budget=getattr(part, "shrink_budget", None) or (100 if tier == "quick" else 400), shrink_line=part.shrink_line)
 
     done_keys = set()
     for part, name, h, key, what, idx in all_oracle_fail:
@@ -330,5 +339,6 @@ def run_check(spec, tier, seed, replay=None):
                     return ioc == "ok" and moc == "ok" and part.diff(c, io, mo) is not None
                 small = core.ddmin(h[:d + 1], fails, budget=80)
                 rep.violation("correspondence", dict(kind="correspondence", source=name, part=part.name, op_index=d, impl=il[:300], model=ml[:300]),
-                              small, False, "model and implementation diverge (op %d of %s)" % (d, name))
+                              small, bool(getattr(part, "divergence_is_property_failure", False)),
+                              "model and implementation diverge (op %d of %s)" % (d, name))
     return rep.finish()
